@@ -188,6 +188,9 @@ func compElemType(vc *VC, comp string) types.Type {
 
 // compAt returns the version of a component in a given state (used for old()).
 func (fc *FnCtx) compAt(st *State, comp, sort string) string {
+	if fc.vc.compTrace != nil {
+		fc.vc.compTrace[comp] = true
+	}
 	if t, ok := st.heap[comp]; ok {
 		return t
 	}
